@@ -1,2 +1,54 @@
-From Coq Require Import List NArith.
+(* C01 - No two data of a record variant ever share a byte.
+   Statement, `exact`, Print Assumptions; nothing else.  Lemmas are in Truc.Proofs. *)
+From Coq Require Import List NArith Lia.
 From Truc.Model Require Import Layout Builder.
+From Truc.Proofs Require Import Variants BuilderInv LayoutThms.
+Import ListNotations.
+Open Scope N_scope.
+
+(* For every request history (any number of variants, any subset removed, any order, invalid
+   requests included, any size >= 0, any alignment >= 1, any per-variant mix of the four shipped
+   strategies), in every variant, the byte ranges [off, off+size) of two distinct data are disjoint.
+   (Stronger than the property: zero-size data are covered too.) *)
+Theorem C01 : forall h, hist_ok h ->
+  forall v a b, In v (b_vs (run h)) -> In a v -> In b v -> a <> b ->
+    off (b_ds (run h)) a + size (b_ds (run h)) a <= off (b_ds (run h)) b \/
+    off (b_ds (run h)) b + size (b_ds (run h)) b <= off (b_ds (run h)) a.
+Proof. exact disjoint_all. Qed.
+Print Assumptions C01.
+
+(* non-vacuity: a 4-variant history mixing three strategies, with a removed datum, a zero-size datum
+   and a filled gap, meets the hypothesis and produces a 5-datum variant *)
+Definition witness_history : list req :=
+  [Add 0 0 4 4 false; Add 1 0 4 4 false; Add 2 1 8 8 false; Close SAppend;
+   Remove 1%nat; Add 3 2 0 1 false; Close SSimple; Add 4 0 4 4 false; Close SSimple;
+   Add 5 3 2 2 false; Close SBasic].
+Example C01_nonvacuous :
+  hist_ok witness_history /\
+  b_vs (run witness_history) = [[0;1;2]; [0;3;2]; [0;4;3;2]; [0;4;3;2;5]]%nat /\
+  map d_off (b_ds (run witness_history)) = [0; 4; 8; 8; 4; 16].
+Proof.
+  split; [|split; vm_compute; reflexivity].
+  repeat constructor; simpl; try lia; unfold native; tauto.
+Qed.
+Print Assumptions C01_nonvacuous.
+
+(* the same history on the model of the code BEFORE the fix "simple strategy must not ignore
+   zero-size data": two data of non-zero size overlap (kept as the replay witness of that defect) *)
+Definition witness_history_unfixed : list req :=
+  [Add 0 0 4 4 false; Add 1 0 4 4 false; Add 2 1 8 8 false; Close SAppend;
+   Remove 1%nat; Add 3 2 0 1 false; Close SSimpleUnfixed; Add 4 0 4 4 false; Close SSimpleUnfixed;
+   Add 5 3 2 2 false; Close SBasic].
+Theorem C01_refuted_unfixed :
+  exists v a b, In v (b_vs (run witness_history_unfixed)) /\ In a v /\ In b v /\ a <> b /\
+    let ds := b_ds (run witness_history_unfixed) in
+    0 < size ds a /\ 0 < size ds b /\ off ds a < off ds b + size ds b /\ off ds b < off ds a + size ds a.
+Proof.
+  exists [0;5;3;4;2]%nat, 5%nat, 4%nat. vm_compute. repeat split; auto; try discriminate.
+Qed.
+Print Assumptions C01_refuted_unfixed.
+
+Check C01 : forall h, hist_ok h ->
+  forall v a b, In v (b_vs (run h)) -> In a v -> In b v -> a <> b ->
+    off (b_ds (run h)) a + size (b_ds (run h)) a <= off (b_ds (run h)) b \/
+    off (b_ds (run h)) b + size (b_ds (run h)) b <= off (b_ds (run h)) a.
